@@ -9,7 +9,7 @@
    Python str, values are arbitrary ([V] is any type).  [cget k now s] is the
    lookup of [k] at clock reading [now] in store [s]: new store and answer. *)
 From Coq Require Import List String ZArith.
-From Rbacx Require Import Cache CacheProofs.
+From Rbacx Require Import Cache CacheProofs CacheLaws.
 Import ListNotations.
 Local Open Scope Z_scope.
 
@@ -130,6 +130,36 @@ Theorem c15_concurrent_invariants : forall (V : Type) (cap : Z) (tr : list (ev s
 Proof. exact str_conc_invariants. Qed.
 Print Assumptions c15_concurrent_invariants.
 
+(* ---- the everyday laws, as corollaries (CacheLaws.v) ---- *)
+
+(* read your write: right after [set k v], with capacity >= 1, a clock that has not
+   gone back and the entry's deadline (if any) not reached, a lookup finds v —
+   whatever the history before *)
+Theorem c15_read_your_write : forall (V : Type) (cap : Z) (pre : list (op string V)) (k : string) (v : V) ttl t1 t2 now,
+  1 <= cap -> t2 <= now -> unexpired (expiry ttl t1) now ->
+  snd (cget String.eqb k now (final String.eqb cap (pre ++ [OSet k v ttl t1 t2]) empty)) = RHit v.
+Proof. exact read_your_write. Qed.
+Print Assumptions c15_read_your_write.
+
+(* after [delete k] a lookup of k misses: every capacity, history and clock *)
+Theorem c15_delete_then_miss : forall (V : Type) (cap : Z) (pre : list (op string V)) (k : string) (now : Z),
+  snd (cget String.eqb k now (final String.eqb cap (pre ++ [ODelete k]) empty)) = RMiss.
+Proof. exact delete_then_miss. Qed.
+Print Assumptions c15_delete_then_miss.
+
+(* after [clear] every lookup misses *)
+Theorem c15_clear_then_miss : forall (V : Type) (cap : Z) (pre : list (op string V)) (k : string) (now : Z),
+  snd (cget String.eqb k now (final String.eqb cap (pre ++ [OClear]) empty)) = RMiss.
+Proof. exact clear_then_miss. Qed.
+Print Assumptions c15_clear_then_miss.
+
+(* a key that no operation ever set is never found *)
+Theorem c15_never_set_never_found : forall (V : Type) (cap : Z) (ops : list (op string V)) (k : string) (now : Z),
+  (forall v ttl t1 t2, ~ In (OSet k v ttl t1 t2) ops) ->
+  snd (cget String.eqb k now (final String.eqb cap ops empty)) = RMiss.
+Proof. exact never_set_never_found. Qed.
+Print Assumptions c15_never_set_never_found.
+
 (* ------------------------------------------------------------------ *)
 (* non-vacuity: concrete instances (values are numbers, time in units)  *)
 (* ------------------------------------------------------------------ *)
@@ -212,3 +242,13 @@ Proof.
   - apply (cs_ret String.eqb 1 _ 0%nat RDone [] [(1%nat, RMiss)]). reflexivity.
   - apply (cs_ret String.eqb 1 _ 1%nat RMiss [] []). reflexivity.
 Qed.
+
+(* the hypotheses of c15_read_your_write are met right after a set on a full cache of
+   capacity 1 whose earlier entry is evicted; with the clock AT the deadline (t1 + ttl = 15)
+   the law's guard fails and the lookup indeed reports expiry instead of a hit *)
+Example c15_example_read_your_write :
+  let pre := [OSet "a"%string 1 None 0 0; OGet "a"%string 1] in
+  snd (cget String.eqb "b"%string 14 (final String.eqb 1 (pre ++ [OSet "b"%string 2 (Some 5) 10 10]) empty)) = RHit 2 /\
+  snd (cget String.eqb "b"%string 15 (final String.eqb 1 (pre ++ [OSet "b"%string 2 (Some 5) 10 10]) empty)) <> RHit 2 /\
+  snd (cget String.eqb "a"%string 14 (final String.eqb 1 (pre ++ [OSet "b"%string 2 (Some 5) 10 10]) empty)) = RMiss.
+Proof. vm_compute. repeat split; congruence. Qed.
